@@ -81,6 +81,14 @@ def user_number(m, s):
     return float(Fraction(m, 10 ** e))
 
 
+def read_back_ok(v, permitted, c):
+    """Is the decoded value v one of the permitted scaled integers (or missing where all ones is permitted)?"""
+    if v is None:
+        return any(c['n'] > 1 and N - c['r'] == 2 ** c['n'] - 1 for N in permitted), None
+    N, ok = pyb.to_scaled_int(v, c['s'])
+    return ok and N in permitted, N
+
+
 def judge(c):
     """Run one (case, input) through the real encoder / decoder.  Returns None or (signature, detail)."""
     from pybufrkit.encoder import Encoder
@@ -116,6 +124,31 @@ def judge(c):
                         'compressed' if cmp_ else 'uncompressed', x, c['m'], v, N, c['s'], permitted))
         if not cmp_ and c['n'] > 1 and N - c['r'] == 2 ** c['n'] - 1:
             return (('quant', 'altered', 'allones-not-missing', feat), 'raw all ones read back as a value')
+    # compressed columns whose entries are ALL off the grid (Quant.PointwiseColumn): the input next to every partner,
+    # as second of two and as middle of three subsets, so that it is neither the first entry nor (always) the minimum
+    ps = [(p, user_number(p['m'], c['s'])) for p in c.get('partners', [])]
+    ps = [(p, xp) for p, xp in ps if xp is not None]
+    cols = [[(p, xp), (c, x)] for p, xp in ps]
+    if len(ps) >= 2:
+        cols.append([ps[0], (c, x), ps[-1]])
+        cols.append([ps[-1], ps[0], (c, x)])
+    for col in cols:
+        subsets = [[xv] for _, xv in col]
+        try:
+            b = Encoder().process(pyb.flat_json(4, ids, len(subsets), True, subsets)).serialized_bytes
+        except Exception:
+            continue
+        try:
+            d = Decoder().process(b)
+            got = [pyb.values_of(d, i)[-1] for i in range(len(col))]
+        except Exception as e:
+            return (('quant', 'decode-of-accepted', type(e).__name__, feat), 'column %r accepted but the result does not decode: %r' % (subsets, e))
+        for (src, xv), v in zip(col, got):
+            ok, N = read_back_ok(v, src['cand'], c)
+            if not ok:
+                return (('quant', 'altered', 'column-beyond-half-unit', feat),
+                        'compressed column %r: input %r (m=%d) reads back as %r (scaled integer %r); permitted %r' % (
+                            [s_[0] for s_ in subsets], xv, src['m'], v, N, src['cand']))
     return None
 
 
@@ -198,10 +231,10 @@ def run(run):
     wd = workdir('c03')
     try:
         cs = qcases(run.tier, seed())
-        consts = {'QCases': tlc.tla_val(cs), 'Reach': '12' if run.tier == 'quick' else '25', 'TableDirs': tlc.tla_val(fm94.table_dirs(33)), 'ExtraB': '<<>>', 'ExtraD': '<<>>'}
+        consts = {'QCases': tlc.tla_val(cs), 'Reach': '12' if run.tier == 'quick' else '25', 'PairOffsets': '{-13, -6, 4, 17}' if run.tier == 'quick' else '{-27, -13, -6, -2, 4, 9, 17, 31}', 'TableDirs': tlc.tla_val(fm94.table_dirs(33)), 'ExtraB': '<<>>', 'ExtraD': '<<>>'}
         text = tlc.mc_module('MC_Quant', ['Quant'], consts)
         cfg = tlc.mc_cfg(consts, invariants=['TypeOK', 'ExactOnGrid', 'HalfUnit', 'NeverWrapNorClip', 'OutOfRangeMustBeRefused',
-                                              'FixpointOnGrid', 'Emit'])
+                                              'FixpointOnGrid', 'PointwiseColumn', 'Emit'])
         res = tlc.run(wd, 'MC_Quant', cfg, text, coverage=False, lazy_emitted=True)
         tlc.require_ok(res, 'Quant')
         if res.violated:
